@@ -110,13 +110,20 @@ let apply d mask h (op : string list) : (hs * bool option) res =
       | H9 s -> (match h9_clone s with Ok c -> Ok (H9 c, Some (h9_eqb s c)) | Panic -> Panic)
       | H10 s -> (match h10_clone s with Ok c -> Ok (H10 c, Some (h10_eqb s c)) | Panic -> Panic))
   | ["L"] -> Ok (h, None)
+  | ["N"; v] ->
+    (* only as the first op: every per-bucket counter starts at v (the tables are still untouched,
+       so this is the counter table's initial value) *)
+    Ok ((match h with
+      | HA s -> HA { s with a_num = tnew s.a_num.tlen (nn (i v)) }
+      | H9 s -> H9 { s with h9_num = tnew s.h9_num.tlen (nn (i v)) }
+      | _ -> h), None)
   | _ -> failwith "bad op"
 
 let rec split_ops (t : string list) : string list list =
   match t with
   | [] -> []
   | ("S" | "B" | "R" as o) :: a :: b :: r -> [o; a; b] :: split_ops r
-  | ("V4" | "VE" as o) :: a :: r -> [o; a] :: split_ops r
+  | ("V4" | "VE" | "N" as o) :: a :: r -> [o; a] :: split_ops r
   | ("C" | "L" as o) :: r -> [o] :: split_ops r
   | _ -> failwith "bad ops"
 
